@@ -3,6 +3,7 @@ mod frames;
 mod stream;
 mod histprop;
 mod l1;
+mod l2;
 mod panics;
 mod props;
 mod respcheck;
@@ -69,6 +70,22 @@ fn check(id: &'static str, tier: Tier) -> i32 {
             let mut ctx = Ctx::new(id, tier, "exploration");
             props::c10::check(&mut ctx)
         }
+        "C03" => {
+            let mut ctx = Ctx::new(id, tier, "exploration");
+            props::conc::check_conc(&mut ctx, props::conc::cfg_c03(), props::conc::c03_strategy, props::conc::RULE_C03, 40, 2000)
+        }
+        "C04" => {
+            let mut ctx = Ctx::new(id, tier, "exploration");
+            props::conc::check_conc(&mut ctx, props::conc::cfg_c04(), props::conc::c04_strategy, props::conc::RULE_C04, 40, 2000)
+        }
+        "C16" => {
+            let mut ctx = Ctx::new(id, tier, "exploration");
+            props::conc::check_conc(&mut ctx, props::conc::cfg_c16(), props::conc::c16_strategy, props::conc::RULE_C16, 8, 600)
+        }
+        "C19" => {
+            let mut ctx = Ctx::new(id, tier, "exploration");
+            props::c19::check(&mut ctx)
+        }
         "C09" => {
             let mut ctx = Ctx::new(id, tier, "exploration");
             props::c09::check(&mut ctx)
@@ -87,6 +104,10 @@ fn replay(id: &'static str, path: &str) -> i32 {
     match id {
         "C10" => props::c10::replay(path),
         "C09" => props::c09::replay(path),
+        "C19" => props::c19::replay(path),
+        "C03" => props::conc::replay(props::conc::cfg_c03(), path),
+        "C04" => props::conc::replay(props::conc::cfg_c04(), path),
+        "C16" => props::conc::replay(props::conc::cfg_c16(), path),
         _ => {
             eprintln!("unknown property {}", id);
             2
